@@ -76,6 +76,10 @@ CHECKS = {
    text="JSON documents = a valid template with every server/client family, client group, resolver and routed sets, plus one labelled mutation (or several compatible ones) per documented invariant (key lengths incl. iPSKs and store entries, SS2022 NAT timeout vs replay window incl. legacy field, MTU 1279/1280, batch sizes, channel capacity, unknown protocol/mode/policy/field, dangling and duplicate names, tunnel address forms); loaded by the real Config.Manager after strict decoding and compared with a reference validator; accepted documents (incl. legacy single-listener forms) are started and driven with a UDP and a TCP exchange through each kind of server; omitted / empty / explicit-default forms of the policy fields must select the same function.",
    note="tproxy/redirect/TLS not generated; default NAT timeout and initial-payload wait values are exercised by C12/C13 rather than here.",
    tech="runtime monitoring: mutation-labelled configuration generation with a reference validator + smoke traffic through accepted configurations (checkptr + faketime builds)"),
+ "C19": dict(cat="exploration",
+   text="Real ClientGroupConfig.AddClientGroup and its probe service over 1-5 fake clients (plus non-member decoys) answering scripted probe outcomes on a virtual clock for 100-150 rounds (longer than the 64/32-round retention, with profiles that flip exactly one retention later, ties, dead members); an independent model (retained history, failure = timeout, first client in configuration order with the strictly best score) is compared with the client actually handed out right after each round, at random instants and DURING rounds; round-robin under the race detector: exact cyclic order single-threaded, ticket multiset and porcupine fetch-and-increment model concurrently; random: members only; UDP groups probe a scripted DNS responder over loopback on the fake clock.",
+   note="Rounds never overrun the interval; instants at which a probe completes are not observed; counter wrap at 2^63 out of scope.",
+   tech="runtime monitoring: reference policy model + porcupine over recorded selections (synctest virtual clock, race detector, faketime for UDP probes)"),
 }
 
 PENDING_DEFAULT = "check under construction in this session (design in DESIGN.md §4); not claimed until its monitor runs clean on the unchanged tree"
